@@ -245,6 +245,28 @@ def c07(rep, tier):
     rep.analysed["config:all"] = {"bodies": len(p.fns)}
 
 
+def c16(rep, tier):
+    p = P("all")
+    r_table.run_entities(p, rep)
+    r_table.run_url(p, rep)
+    import r_strslice
+    fns = [f for f in p.fns.values() if f.id.startswith("liquid_lib::stdlib::filters::html::") or f.id.startswith("liquid_lib::stdlib::filters::url::")]
+    r_strslice.run(p, rep, sorted(fns, key=lambda f: f.id))
+    rep.analysed["config:all"] = {"bodies": len(p.fns)}
+
+
+def c17(rep, tier):
+    p = P("all")
+    r_table.run_directives(p, rep)
+    r_table.run_date_formats(p, rep)
+    r_table.run_date_cmp(p, rep)
+    import r_strslice
+    fns = [f for f in p.fns.values() if f.id.startswith("liquid_core::model::scalar::datetime::")]
+    r_strslice.run(p, rep, sorted(fns, key=lambda f: f.id))
+    r_cmp.run_mirror(p, rep)
+    rep.analysed["config:all"] = {"bodies": len(p.fns)}
+
+
 PROPS = {
     "C10": {
         "run": c10,
@@ -492,5 +514,34 @@ PROPS = {
         ),
         "trusted": TRUST_COMMON + ["pest_meta grammar front end"],
         "note": "numeric parts (index conversion) are out of reach of static analysis",
+    },
+    "C16": {
+        "run": c16,
+        "level": "other",
+        "design_ref": "DESIGN.md §3 R-TABLE(entities, URL set, strict decode), R-STRSLICE; §4 C16",
+        "technique": "constant tables read from MIR (string constants incl. promoted tables, AsciiSet construction in the const initializer) compared writer-vs-reader; dataflow rule that every result passes the encoder; boundary provenance of escape's slices",
+        "explanation": (
+            "Decided: escape emits exactly the five entities, mapped from < > ' \" &; escape_once's lookahead table is exactly those entities without the `&` "
+            "(including the terminating `;`) and returns the matched prefix's length only; url_encode's set is NON_ALPHANUMERIC minus '-', '.', '_', is the set handed to "
+            "utf8_percent_encode, and every non-nil result comes from that call (no bypass); url_decode translates '+', percent-decodes, uses the strict decode_utf8 and "
+            "propagates its error; escape's three slices use char_indices/ASCII-guarded bounds. NOT decided: invertibility and idempotence as such, the strip_html regexes."
+        ),
+        "trusted": TRUST_COMMON + ["percent-encoding crate semantics"],
+        "note": "tables and flows, not string-level equalities",
+    },
+    "C17": {
+        "run": c17,
+        "level": "other",
+        "design_ref": "DESIGN.md §3 R-TABLE(date formats, strftime directives), R-STRSLICE, R-MIRROR; §4 C17",
+        "technique": "directive -> calendar-accessor table read off the strftime match (variant-directed regions of the char switch); format-constant agreement between Display/serde writers and the parser; offset pattern constant evaluated against every printable offset",
+        "explanation": (
+            "Decided: each of the 45 strftime directives is computed from exactly the time::OffsetDateTime accessors its documented meaning needs (e.g. %G/%g/%V from "
+            "to_iso_week_date, %U sunday_based_week, %j ordinal); DateTime's Display formats are among the formats parse_date_time accepts and the serde bridge reads what "
+            "it writes; the constant pattern that detects a trailing offset recognises every +-HHMM from -1200 to +1445 and no offset-less form; DateTime/Date compare "
+            "through the wrapped time types; mixed date arms of scalar_eq/scalar_cmp are mirrored; strftime's str slices are on character boundaries. "
+            "NOT decided: padding/width arithmetic, %L/%N digit formatting (format_args templates are opaque in MIR), calendar arithmetic inside `time`."
+        ),
+        "trusted": TRUST_COMMON + ["time crate accessors mean what their names say"],
+        "note": "which field feeds which directive is decided; how it is padded is not",
     },
 }
